@@ -29,7 +29,7 @@ MUT = ["none", "add", "delete", "grow", "shrink", "rewrite"]
 def BOUNDS(tier):
     q = tier == "quick"
     return {"operations": "create v1 / v2 / hybrid (CLI creators; thorough also class creators), recheck, edit, magnet, rebuild",
-            "changes": MUT, "tree": "name/a, name/b (+ name/c when added), sizes in [0, 2P]; P in {16, 32} KiB (may differ between runs)",
+            "changes": MUT, "tree": "name/a, name/sub/b (+ name/sub/c when added: the root directory's own entries do not change), sizes in [0, 2P]; P in {16, 32} KiB (may differ between runs)",
             "histories": "2 operations" + ("" if q else ", and 3 operations for create/create/create"),
             "outside": "longer histories, more files, concurrent processes"}
 
@@ -68,13 +68,13 @@ def mutate(E, fs, sizes, mut, P, tag=""):
     sizes = dict(sizes)
     if mut == "add":
         s = E.int("sc" + tag, 0, 2 * P)
-        fs.add("/data/name/c", ("f", "c" + tag), s)
-        sizes["name/c"] = s
+        fs.add("/data/name/sub/c", ("f", "c" + tag), s)
+        sizes["name/sub/c"] = s
         E.witnesses["file added"] = True
     elif mut == "delete":
-        del fs.files["/data/name/b"]
-        fs.touch("/data/name/b")
-        del sizes["name/b"]
+        del fs.files["/data/name/sub/b"]
+        fs.touch("/data/name/sub/b")
+        del sizes["name/sub/b"]
         E.witnesses["file deleted"] = True
     elif mut in ("grow", "shrink"):
         s = E.int("sa2" + tag, 0, 2 * P)
@@ -91,7 +91,7 @@ def mutate(E, fs, sizes, mut, P, tag=""):
 def base_fs(E, P, K=2):
     fs = AFS(order="reversed")
     sizes = {}
-    for i, r in enumerate(("name/a", "name/b")):
+    for i, r in enumerate(("name/a", "name/sub/b")):
         sizes[r] = E.int("s%d" % i, 0, K * P)
         fs.add("/data/" + r, ("f", i), sizes[r])
     fs.mkdirs("/out")
@@ -338,7 +338,7 @@ def replay(params, model, notes, workdir, seed):
     root = os.path.join(workdir, "data", "name")
     sa, sb = int(model.get("s0", 0)), int(model.get("s1", 0))
     refconc.write_file(os.path.join(root, "a"), refconc.content(("f", 0), sa, seed))
-    refconc.write_file(os.path.join(root, "b"), refconc.content(("f", 1), sb, seed))
+    refconc.write_file(os.path.join(root, "sub", "b"), refconc.content(("f", 1), sb, seed))
     mods = cr.real_torrentfile()
     T = mods["torrentfile.torrent"]
 
@@ -354,9 +354,9 @@ def replay(params, model, notes, workdir, seed):
 
     def change(mut, tag=""):
         if mut == "add":
-            refconc.write_file(os.path.join(root, "c"), refconc.content(("f", "c" + tag), int(model.get("sc" + tag, 0)), seed))
+            refconc.write_file(os.path.join(root, "sub", "c"), refconc.content(("f", "c" + tag), int(model.get("sc" + tag, 0)), seed))
         elif mut == "delete":
-            os.remove(os.path.join(root, "b"))
+            os.remove(os.path.join(root, "sub", "b"))
         elif mut in ("grow", "shrink"):
             refconc.write_file(os.path.join(root, "a"), refconc.content(("f", 0), int(model.get("sa2" + tag, 0)), seed))
         elif mut == "rewrite":
@@ -432,7 +432,7 @@ def replay(params, model, notes, workdir, seed):
         # recheck ; truncate a ; recheck (second metafile may use another piece length)
         version = params["version"]
         data = {"a": refconc.content(("f", 0), sa, seed), "b": refconc.content(("f", 1), sb, seed)}
-        files = [(["a"], data["a"]), (["b"], data["b"])]
+        files = [(["a"], data["a"]), (["sub", "b"], data["b"])]
         m1 = os.path.join(workdir, "m.torrent")
         with open(m1, "wb") as f:
             f.write(refconc.bencode(refconc.build_meta(files, 16384, version)))
